@@ -139,13 +139,17 @@ def gen_network(prng, big):
 def finish_network(prng, n, motifs):
     perm = list(range(n))
     prng.shuffle(perm)
+    if prng.random() < 0.08:
+        off = prng.choice((250, 995, 2 ** 31 - 3, 2 ** 63 + 5))      # non-negative (the label format is split on '-')
+        perm = [x + off for x in perm]
     out = []
     for uid, (shape, verts) in enumerate(motifs):
         vs = [perm[v] for v in verts]
         template = shape[1] if isinstance(shape, tuple) else SHAPES[shape][1]
         es = [[vs[a], vs[b]] if prng.random() < 0.5 else [vs[b], vs[a]] for a, b in template]
         prng.shuffle(es)
-        out.append({"key": str(len(vs)), "verts": vs, "edges": es, "uid": uid * prng.choice((1, 1, 3)) + prng.choice((0, 0, 10))})
+        out.append({"key": str(len(vs)), "verts": vs, "edges": es,
+                    "uid": uid * prng.choice((1, 1, 3)) + prng.choice((0, 0, 10, 10, 255, 2 ** 31, 2 ** 63))})
     uids = [m["uid"] for m in out]
     if len(set(uids)) != len(uids):
         for i, m in enumerate(out):
@@ -181,12 +185,15 @@ def generate(prng, tier, index):
                 "queries": qs, "mono_grid": False, "cover_type": "motif cover", "focus": "fixedpoint:" + jname}
     net = gen_network(prng, big)
     variant = "faults" if index % 4 == 3 else "clean"
-    grid = [0.0, 1.0, 0.05, 0.1, 0.2, 0.3, 0.4, 0.5, 0.6, 0.7, 0.8, 0.9, 0.95, round(prng.random(), 4)]
+    grid = [0.0, 1.0, 0.05, 0.1, 0.2, 0.3, 0.4, 0.5, 0.6, 0.7, 0.8, 0.9, 0.95, round(prng.random(), 4),
+            5e-324, 2.0 ** -53, 1e-9, 1.0 - 2.0 ** -53, 0, 1]
     nq = prng.randrange(2, 7)
     qs = [prng.choice(grid) for _ in range(nq)]
     if prng.random() < 0.5:
         qs[prng.randrange(nq)] = qs[0]          # a repeated phi
     iters = prng.choice((1, 2, 3, 5, 8, 12, 20, 25, 40) if tier == "thorough" else (1, 2, 3, 5, 8, 12, 20))
+    if prng.random() < 0.03:
+        iters = 0               # no sweep at all: the value is 1 - average of 0.5^(motifs at the vertex)
     sc = {"variant": variant, "net": net, "iterations": iters, "queries": qs,
           "mono_grid": prng.random() < 0.35 and (tier == "thorough" or iters <= 8),
           "cover_type": prng.choice(("motif cover", "MPCC", ""))}
@@ -343,7 +350,9 @@ def execute(sc, ctx):
         ctx.expect(clause, abs(val - float(val2)) <= 1e-12,
                    lambda: f"same object returns {val!r}, a fresh object {float(val2)!r}{tag}")
         ctx.expect(f"{P}.range", -1e-12 <= val <= 1.0 + 1e-12, lambda: f"value {val!r} outside [0, 1]{tag}")
-        if phi == 0.0:
+        if phi == 0.0 and iters >= 1:
+            # with zero sweeps the driver returns the untouched 0.5 start; "0 at phi = 0" is a statement about the
+            # computed fixed point, which a single sweep at phi = 0 already reaches exactly
             ctx.expect(f"{P}.zero", abs(val) <= 1e-12, lambda: f"phi=0 gives {val!r}, expected 0{tag}")
         # value after `iters` sweeps from the 0.5 start: exact to rounding for EVERY iteration count.  Either
         # sweep discipline is accepted (in-place in the graph's edge order, or Jacobi) so that a legitimate
